@@ -1,7 +1,7 @@
 SPECIFICATION TraceSpec
 CONSTANTS
   Clients = {"c0", "c1", "c2", "c3"}
-  TPs = {"t-0", "t-1", "t-2", "t-3", "u-0", "u-1", "u-2"}
+  TPs = {"t-0", "t-1", "t-2", "t-3", "t-4", "u-0", "u-1", "u-2"}
 CONSTRAINT Rec
 POSTCONDITION Post
 CHECK_DEADLOCK FALSE
